@@ -30,6 +30,8 @@ def judge_v2(ctx, cpath, bads, label):
 
 
 def run(ctx):
+    if ctx.replay:
+        return ac.replay(ctx, 'range', ['zero'])
     # (1) design theorems on the exhaustive enumeration (algorithmic sub-specs = declarative Witness, results valid)
     ac.model_check(ctx, ["MC_Algo_quick.cfg"] if ctx.quick else ["MC_Algo.cfg", "MC_Algo_p3.cfg"], workers=ac.par(ctx) * 2)
     h = ac.harness(ctx)
